@@ -2,7 +2,7 @@
 from ..lib import *
 from .. import panic
 
-NEED_DEPS = False
+NEED_DEPS = True
 EXPLANATION = (
     "PANIC ledger. Every panic-capable instruction in the MIR of every non-test body of the crate is enumerated: calls into "
     "core::panicking / begin_panic (panic!, assert!, unreachable!), Option/Result unwrap/expect, Index/IndexMut, Vec remove/insert/"
@@ -12,11 +12,11 @@ EXPLANATION = (
     "(function, class, normalised receiver term) and must be discharged by one named rule evaluated on the current MIR: D-LEN, "
     "D-POSITION, D-HASDIGEST, D-CASEINV, D-ASSERTION-SUBJECT, D-OWNASSERT, D-GUARD, D-TOTAL, D-INITSOME, D-LOCK, D-COUNTER, D-PRESERVED, "
     "D-REFCELL, D-CONST, a T-REASON table entry, or the OUT-OF-FAMILY table (documented builder/registry misuse). Undischarged sites "
-    "are violations unless their exact key is a known finding. Does not decide allocation failure, stack overflow, or panics inside "
-    "dependencies beyond the precondition table.")
+    "are violations unless their exact key is a known finding. C16.dep: every dcbor / bc-components function the crate calls whose own MIR (to depth 2) contains panic-capable instructions is either in the precondition table (its call sites are ledger sites) or in a reviewed table with the reason; a new such callee is reported. Does not decide allocation failure, stack overflow, or panics deeper inside "
+    "dependencies.")
 TRUSTED = ['dependency precondition table (panic.DEP_PRECONDITIONS) lists every dependency API used by the crate that panics on a violated precondition',
            'std APIs not in the enumerated classes do not panic on any input (e.g. Vec::push, HashMap::insert)']
-FLOORS = {'C16': 95}
+FLOORS = {'C16': 95, 'C16.dep': 15}
 
 
 def check(ctx):
@@ -36,6 +36,8 @@ def check(ctx):
     for r, n in sorted(by_rule.items()):
         ctx.count('discharged_by_' + r, n)
     ctx.count('panic_capable_sites', len(L.sites))
+    # every dependency function the crate calls that can itself panic is either a ledger precondition or reviewed
+    panic.dep_census(ctx, 'C16.dep')
 
 
 def clippy_hits(repo):
